@@ -20,10 +20,14 @@ type mstate struct {
 	pw, sw int // 0 not started, 1 watched, 2 de-registered
 	vP, vS int
 	locked bool // S locked in P's newest transaction
-	arch   bool // S de-registered while locked
+	arch   bool // S de-registered while locked (at its latest StopWatching)
+	re     int  // re-starts of S so far (at most enumMaxRestarts)
 }
 
-const enumMaxVer = 2
+const (
+	enumMaxVer      = 2
+	enumMaxRestarts = 1
+)
 
 func (m mstate) actions() []kernel.Step {
 	var a []kernel.Step
@@ -31,6 +35,10 @@ func (m mstate) actions() []kernel.Step {
 		return nil
 	}
 	if m.sw == 0 {
+		a = append(a, kernel.St("startS", "i", 1))
+	}
+	if m.sw == 2 && m.re < enumMaxRestarts && m.vS < enumMaxVer {
+		// re-watch S with its next version
 		a = append(a, kernel.St("startS", "i", 1))
 	}
 	if m.vP < enumMaxVer {
@@ -66,6 +74,10 @@ func (m mstate) actions() []kernel.Step {
 func (m mstate) apply(st *kernel.Step) mstate {
 	switch st.Op {
 	case "startS":
+		if m.sw == 2 {
+			m.re++
+			m.vS++
+		}
 		m.sw = 1
 	case "pub":
 		if st.Int("ch") == 0 {
